@@ -118,3 +118,131 @@ package arraylist
 //@   requires Inv(list)
 //@   modifies list.elements
 //@   ensures Seq(list) == old(Seq(list)) && Owned(list)
+
+// ---- iterator: a cursor over positions -1..n of Seq(list) (C08) ----
+
+//@ pred ItInv(it) := it != nil && it.list != nil && Inv(it.list) && 0 - 1 <= it.index && it.index <= len(Seq(it.list))
+
+//@ func List.Iterator
+//@   requires Inv(list)
+//@   modifies nothing
+//@   ensures [C08 C17 C18] fresh(result) && ItInv(result) && result.list == list && result.index == 0 - 1
+
+//@ func Iterator.Next
+//@   requires ItInv(iterator)
+//@   modifies iterator.index
+//@   ensures [C08 C17] ItInv(iterator) && iterator.index == min(old(iterator.index) + 1, len(Seq(iterator.list)))
+//@   ensures [C08] result == (0 <= iterator.index && iterator.index < len(Seq(iterator.list)))
+
+//@ func Iterator.Value
+//@   requires ItInv(iterator) && 0 <= iterator.index && iterator.index < len(Seq(iterator.list))
+//@   modifies nothing
+//@   ensures [C08 C17 C18] result == Seq(iterator.list)[iterator.index]
+
+//@ func Iterator.Index
+//@   requires ItInv(iterator)
+//@   modifies nothing
+//@   ensures [C08 C17 C18] result == iterator.index
+
+//@ func Iterator.Begin
+//@   requires ItInv(iterator)
+//@   modifies iterator.index
+//@   ensures [C08 C17] ItInv(iterator) && iterator.index == 0 - 1
+
+//@ func Iterator.First
+//@   requires ItInv(iterator)
+//@   modifies iterator.index
+//@   ensures [C08 C17] ItInv(iterator) && iterator.index == 0 && result == (len(Seq(iterator.list)) > 0)
+
+//@ func Iterator.NextTo
+//@   requires ItInv(iterator) && f != nil
+//@   modifies iterator.index
+//@   ensures [C08 C17] ItInv(iterator)
+//@   ensures [C08] found: result ==> old(iterator.index) < iterator.index && iterator.index < len(Seq(iterator.list)) && f(iterator.index, Seq(iterator.list)[iterator.index])
+//@     && (forall j :: old(iterator.index) < j && j < iterator.index ==> !f(j, Seq(iterator.list)[j]))
+//@   ensures [C08] notfound: !result ==> iterator.index == len(Seq(iterator.list)) && (forall j :: old(iterator.index) < j && j < len(Seq(iterator.list)) ==> !f(j, Seq(iterator.list)[j]))
+//@   loop 1:
+//@     invariant ItInv(iterator) && old(iterator.index) <= iterator.index
+//@     invariant forall j :: old(iterator.index) < j && j <= iterator.index && j < len(Seq(iterator.list)) ==> !f(j, Seq(iterator.list)[j])
+//@     decreases len(Seq(iterator.list)) - iterator.index
+
+//@ func Iterator.Prev
+//@   requires ItInv(iterator)
+//@   modifies iterator.index
+//@   ensures [C08 C17] ItInv(iterator) && iterator.index == max(old(iterator.index) - 1, 0 - 1)
+//@   ensures [C08] result == (0 <= iterator.index && iterator.index < len(Seq(iterator.list)))
+
+//@ func Iterator.End
+//@   requires ItInv(iterator)
+//@   modifies iterator.index
+//@   ensures [C08 C17] ItInv(iterator) && iterator.index == len(Seq(iterator.list))
+
+//@ func Iterator.Last
+//@   requires ItInv(iterator)
+//@   modifies iterator.index
+//@   ensures [C08 C17] ItInv(iterator) && iterator.index == len(Seq(iterator.list)) - 1 && result == (len(Seq(iterator.list)) > 0)
+
+//@ func Iterator.PrevTo
+//@   requires ItInv(iterator) && f != nil
+//@   modifies iterator.index
+//@   ensures [C08 C17] ItInv(iterator)
+//@   ensures [C08] found: result ==> 0 <= iterator.index && iterator.index < old(iterator.index) && f(iterator.index, Seq(iterator.list)[iterator.index])
+//@     && (forall j :: iterator.index < j && j < old(iterator.index) ==> !f(j, Seq(iterator.list)[j]))
+//@   ensures [C08] notfound: !result ==> iterator.index == 0 - 1 && (forall j :: 0 <= j && j < old(iterator.index) ==> !f(j, Seq(iterator.list)[j]))
+//@   loop 1:
+//@     invariant ItInv(iterator) && iterator.index <= old(iterator.index)
+//@     invariant forall j :: iterator.index <= j && j < old(iterator.index) && 0 <= j ==> !f(j, Seq(iterator.list)[j])
+//@     decreases iterator.index + 1
+
+
+// ---- enumerable (C14): agree with iteration, receiver unchanged, result fresh ----
+
+//@ func List.Each
+//@   requires Inv(list) && f != nil
+//@   modifies nothing
+//@   ensures [C14 C17 C18] true
+//@   loop 1:
+//@     invariant ItInv(iterator) && iterator.list == list && fresh(iterator)
+//@     decreases len(Seq(list)) - iterator.index
+
+//@ func List.Any
+//@   requires Inv(list) && f != nil
+//@   modifies nothing
+//@   ensures [C14 C17 C18] result == (exists j :: 0 <= j && j < len(Seq(list)) && f(j, Seq(list)[j]))
+//@   loop 1:
+//@     invariant ItInv(iterator) && iterator.list == list && fresh(iterator)
+//@     invariant forall j :: 0 <= j && j <= iterator.index && j < len(Seq(list)) ==> !f(j, Seq(list)[j])
+//@     decreases len(Seq(list)) - iterator.index
+
+//@ func List.All
+//@   requires Inv(list) && f != nil
+//@   modifies nothing
+//@   ensures [C14 C17 C18] result == (forall j :: 0 <= j && j < len(Seq(list)) ==> f(j, Seq(list)[j]))
+//@   loop 1:
+//@     invariant ItInv(iterator) && iterator.list == list && fresh(iterator)
+//@     invariant forall j :: 0 <= j && j <= iterator.index && j < len(Seq(list)) ==> f(j, Seq(list)[j])
+//@     decreases len(Seq(list)) - iterator.index
+
+//@ func List.Find
+//@   requires Inv(list) && f != nil
+//@   modifies nothing
+//@   ensures [C14 C17 C18] found: result0 >= 0 ==> result0 < len(Seq(list)) && result1 == Seq(list)[result0] && f(result0, result1)
+//@     && (forall j :: 0 <= j && j < result0 ==> !f(j, Seq(list)[j]))
+//@   ensures [C14 C17 C18] notfound: result0 < 0 ==> result0 == 0 - 1 && result1 == zero(result1) && (forall j :: 0 <= j && j < len(Seq(list)) ==> !f(j, Seq(list)[j]))
+//@   loop 1:
+//@     invariant ItInv(iterator) && iterator.list == list && fresh(iterator)
+//@     invariant forall j :: 0 <= j && j <= iterator.index && j < len(Seq(list)) ==> !f(j, Seq(list)[j])
+//@     decreases len(Seq(list)) - iterator.index
+
+//@ func List.Map
+//@   requires Inv(list) && f != nil
+//@   modifies nothing
+//@   ensures [C14 C16 C17 C18] fresh(result) && Inv(result) && len(Seq(result)) == len(Seq(list))
+//@     && (forall j :: 0 <= j && j < len(Seq(list)) ==> Seq(result)[j] == f(j, Seq(list)[j]))
+//@   ensures [C16] arr(result.elements) == 0 || fresh(arr(result.elements))
+//@   loop 1:
+//@     invariant ItInv(iterator) && iterator.list == list && fresh(iterator) && fresh(newList) && Inv(newList) && newList != iterator
+//@     invariant arr(newList.elements) == 0 || fresh(arr(newList.elements))
+//@     invariant len(Seq(newList)) == min(iterator.index + 1, len(Seq(list)))
+//@     invariant forall j :: 0 <= j && j < len(Seq(newList)) ==> Seq(newList)[j] == f(j, Seq(list)[j])
+//@     decreases len(Seq(list)) - iterator.index
